@@ -74,7 +74,8 @@ def finish(outcome, tier, seed, wall, level="model_checking"):
     for kid, (k, vs) in sorted(reported_known.items()):
         print("KNOWN-FINDING: property=%s %s [%s; %d occurrence(s) this run]" % (prop, k["what"], kid, len(vs)))
     status = 0
-    os.makedirs(os.path.join(VERIF, "replays"), exist_ok=True)
+    out_root = os.environ.get("VERIF_OUT_DIR") or VERIF  # (tools/seedmatrix.py redirects its runs)
+    os.makedirs(os.path.join(out_root, "replays"), exist_ok=True)
     seen_sig = set()
     n = 0
     for v in unknown:
@@ -84,7 +85,7 @@ def finish(outcome, tier, seed, wall, level="model_checking"):
         n += 1
         if n > 10:
             break
-        path = os.path.join(VERIF, "replays", "%s-%s-%d.json" % (prop, tier, n))
+        path = os.path.join(out_root, "replays", "%s-%s-%d.json" % (prop, tier, n))
         with open(path, "w") as fp:
             json.dump(
                 {"property": prop, "signature": v["signature"], "summary": v["summary"], "replay": v["replay"]},
@@ -110,8 +111,8 @@ def finish(outcome, tier, seed, wall, level="model_checking"):
         "known_findings_seen": sorted(reported_known.keys()),
         "notes": outcome.notes,
     }
-    os.makedirs(os.path.join(VERIF, "evidence"), exist_ok=True)
-    with open(os.path.join(VERIF, "evidence", "%s.json" % prop), "w") as fp:
+    os.makedirs(os.path.join(out_root, "evidence"), exist_ok=True)
+    with open(os.path.join(out_root, "evidence", "%s.json" % prop), "w") as fp:
         json.dump(ev, fp, indent=1, sort_keys=True, default=str)
         fp.write("\n")
     if status == 0:
